@@ -311,6 +311,19 @@ def check_pairwise(c):
             res.nt((tuple(shape), r))
         else:
             res.skip('requested rank below the TT-rank of the order-2 model')
+    # one model object asked first for a rank that is too small and then for a sufficient one: the second answer is the model
+    rbig = max(c['rs'])
+    tn = max(int(np.sum(ref.unfold_sv(M2, k) > 1e-9 * ref.unfold_sv(M2, k)[0])) for k in range(1, d))
+    if rbig >= tn and d * max(shape) <= 64:
+        res.ev()
+        with warnings.catch_warnings():
+            warnings.simplefilter('ignore')
+            obj = teneva.ANOVA(grid, y, 2, 0)
+            obj.cores(2, 0.)
+            Yb = obj.cores(rbig, 0.)
+        dev = float(np.linalg.norm(ref.dense(Yb) - M2)) / float(np.linalg.norm(M2))
+        res.check(dev <= (1e-7 if not c.get('nearsym') else 1e-9), 'pairwise.reuse', dict(c, r=rbig),
+                  lambda: 'cores(%d) after cores(2) on the same ANOVA object deviates from the order-2 model by relative %.3e' % (rbig, dev), ['value', 'reuse'])
     return res
 
 
